@@ -762,6 +762,16 @@ fn gen_interp_case(rng: &mut Rng, i: usize) -> Synth {
             // definition slots: more FDEFs than slots, aliasing keys, negative / huge keys
             sp.n_funcs = rng.below(4) as u16;
             let mut f = vec![];
+            if rng.chance(1, 3) {
+                // the table has max(maxp, 64) slots (Outlines::new): fill it to 62..=66 distinct keys, in an order
+                // that uses both the direct slot and the backward walk of `allocate`
+                sp.n_funcs = *rng.pick(&[0u16, 3, 64, 65]);
+                let n = 62 + rng.below(5) as i32;
+                let base = *rng.pick(&[0, 1, 30]);
+                for k in 0..n {
+                    fdef(&mut f, base + if rng.chance(1, 8) { 200 + k } else { k }, &[0x7F]);
+                }
+            }
             for _ in 0..rng.below(6) {
                 let k = *rng.pick(&[0, 1, 2, 3, 7, -1, 300, 2, 0]);
                 fdef(&mut f, k, &[0x7F]);
